@@ -104,4 +104,27 @@ def mainCleanB (p : BuildAlg.Prog) (b : Built) : Bool :=
   b.argsOf.all (fun e => e.1 == 0 || e.2.all (fun a =>
     (p.postIn 0).all (fun v => !(visit (adjCut p e.1) p.fuel v []).contains (V.node a))))
 
+/-- Executable form of `C04.Lexical` — a function of the PROGRAM alone: bodies have requested argument
+    lists; every argument the outputs depend on is in the requested list of a graph the outputs depend
+    on; nothing the main graph reads depends freely on a body's argument. -/
+def lexicalB (p : BuildAlg.Prog) : Bool :=
+  let full := visit p.adjFull p.fuel (V.src 0) []
+  let gs := List.range p.graphs.length
+  gs.all (fun s => s == 0 || match p.graphs[s]? with
+    | some pg => pg.args.isSome
+    | none => true) &&
+  full.all (fun v => match v with
+    | .node a => !p.isArg a || gs.any (fun s => match p.graphs[s]? with
+        | some pg => (match pg.args with
+            | some l => l.contains a
+            | none => false) && full.contains (V.src s)
+        | none => false)
+    | .src _ => true) &&
+  gs.all (fun s => s == 0 || match p.graphs[s]? with
+    | some pg => (match pg.args with
+        | some l => l.all (fun a =>
+            (p.postIn 0).all (fun v => !(visit (adjCut p s) p.fuel v []).contains (V.node a)))
+        | none => true)
+    | none => true)
+
 end Bridge
